@@ -120,6 +120,11 @@ def isinstance_z3(eng, v, cls, node):
 
 
 def call_builtin(eng, name, args, kwargs, st, node):
+    h0 = eng.contract.hooks.get('builtin_first')
+    if h0:
+        r0 = h0(eng, name, args, kwargs, st, node)
+        if r0 is not None:
+            return r0
     if name == 'int':
         if not args:
             return [(st, vint(0))]
